@@ -237,6 +237,10 @@ static bool gen_one(qop *op, gctx c) {
 	// a quarter of the submissions have their thread descheduled somewhere inside the call
 	// (half of them early in the call, where the item is published: tail exchange, head store, state update)
 	if (g_chance(1, 4)) { op->arm_rel = g_chance(1, 2) ? g_range(1, 12) : g_range(1, 45); op->arm_code = g_range(1, 4); }
+	// a synchronous submission to a queue that is still inactive when the program starts: often descheduled at its very
+	// first steps, i.e. between what it reads about the queue and the moment it acts on it, while the queue is being
+	// configured and activated by its owner
+	if (op_is_sync(op->kind) && Q[op->q].inactive && g_chance(1, 2)) { op->arm_rel = g_range(1, 3); op->arm_code = g_range(2, 4); }
 	gen_body(op, c);
 	return true;
 }
@@ -417,7 +421,7 @@ static void create_queues(void) {
 				// synchronous submission to the still inactive queue by then)
 				// (not where inactive queues are also suspended dozens deep: dispatch_set_target_queue documents a client
 				// crash for that combination)
-				if (G->suspend_inactive || g_chance(1, 2)) dispatch_set_target_queue(n->q, tq); else n->late_tq = tq;
+				if (G->suspend_inactive || g_chance(1, 4)) dispatch_set_target_queue(n->q, tq); else n->late_tq = tq;
 			} else if (n->retarget_to >= 0) {
 				n->q = dispatch_queue_create(n->label, a);   // only such queues may change their target once active
 			} else {
